@@ -8,6 +8,7 @@ import (
 	"io"
 	"log/slog"
 	"net"
+	"os"
 	"sync"
 	"sync/atomic"
 	"time"
@@ -205,6 +206,23 @@ func (c *connection) failPending(record map[uint16]*ActiveMessage) {
 	}
 }
 
+// _writeTimeout 单次下发数据给终端的最长等待时间
+// 终端一直不读数据(发送缓冲区写满)的时候 write协程会一直阻塞在Write上 下发给这个终端的指令把它的队列占满以后
+// 会话管理协程也跟着阻塞 其他所有终端的加入 离开和指令下发全部卡住
+const _writeTimeout = 10 * time.Second
+
+// writeData 下发数据给终端 只在write协程中调用
+func (c *connection) writeData(data []byte) error {
+	_ = c.conn.SetWriteDeadline(time.Now().Add(_writeTimeout))
+	_, err := c.conn.Write(data)
+	if errors.Is(err, os.ErrDeadlineExceeded) {
+		// 可能只写了一部分 这个连接不能继续使用了 关闭以后reader协程读到错误 走正常的stop流程
+		// 这里不能直接调用stop: stop要等会话管理协程 而会话管理协程可能正等着往这个连接的队列里放指令 只有write协程继续消费才能放进去
+		_ = c.conn.Close()
+	}
+	return err
+}
+
 func (c *connection) defaultReplyEvent(msg *Message) {
 	if has := msg.HasReply(); !has {
 		return
@@ -221,7 +239,7 @@ func (c *connection) defaultReplyEvent(msg *Message) {
 	seq := c.curSeq()
 	header.PlatformSerialNumber = seq
 	data := header.Encode(body)
-	if _, err = c.conn.Write(data); err != nil {
+	if err = c.writeData(data); err != nil {
 		slog.Warn("write fail",
 			slog.String("data", fmt.Sprintf("%x", data)),
 			slog.Any("err", err))
@@ -239,7 +257,7 @@ func (c *connection) subPackReplyEvent(msg *Message) {
 	header.PlatformSerialNumber = seq
 	header.ReplyID = uint16(consts.P8003ReissueSubcontractingRequest)
 	data := header.Encode(msg.JTMessage.Body)
-	if _, err := c.conn.Write(data); err != nil {
+	if err := c.writeData(data); err != nil {
 		slog.Warn("write fail",
 			slog.String("data", fmt.Sprintf("%x", data)),
 			slog.Any("err", err))
@@ -264,7 +282,7 @@ func (c *connection) onActiveEvent(activeMsg *ActiveMessage, record map[uint16]*
 		Data:        data,
 	}
 	record[seq] = activeMsg
-	_, err := c.conn.Write(data)
+	err := c.writeData(data)
 	replyMsg := newActiveMessage(seq, activeMsg.Command, data, err)
 	if v, ok := c.handles[activeMsg.Command]; ok {
 		replyMsg.Handler = v
